@@ -129,18 +129,21 @@ def run(ctx, tier):
                 ctx.violation("result-differs-for-numpy-str-argument:" + _name(fn).split(".")[-1], function=_name(fn), args=repr(a)[:300],
                               with_str=repr(base)[:300], with_numpy_str=repr(alt)[:300], monitor="replay", case=None)
     ctx.hit("replay_numpy_str_calls", ns)
-    # phase 1f: ambient display settings of the host program (numpy print options) are none of the decoders' business
+    # phase 1f: ambient settings of the host program (numpy print options, decimal context) are none of the decoders' business
     na = 0
     if np is not None:
         for i in order[:2000]:
             fn, a, k, want = rec[i]
             base = probe.call(fn, *_copy(a), **_copy(k))
-            with np.printoptions(threshold=5, edgeitems=1, linewidth=12, precision=2, sign="+", floatmode="fixed", suppress=True):
+            import decimal
+            with np.printoptions(threshold=5, edgeitems=1, linewidth=12, precision=2, sign="+", floatmode="fixed", suppress=True), \
+                    decimal.localcontext() as dctx:
+                dctx.prec = 5          # ... nor is the host's decimal context
                 alt = probe.call(fn, *_copy(a), **_copy(k))
             na += 1
             ctx.ev(2)
             if repr(_norm(alt)) != repr(_norm(base)):
-                ctx.violation("result-depends-on-numpy-print-options:" + _name(fn).split(".")[-1], function=_name(fn), args=repr(a)[:300],
+                ctx.violation("result-depends-on-ambient-settings:" + _name(fn).split(".")[-1], function=_name(fn), args=repr(a)[:300],
                               default_options=repr(_norm(base))[:300], other_options=repr(_norm(alt))[:300], monitor="replay", case=None)
     ctx.hit("replay_under_other_print_options", na)
     # phase 1g: a host program that turns floating-point anomalies into exceptions (np.seterr(all="raise")) and runtime
